@@ -39,19 +39,29 @@ AttrOf(kind, i) == IF kind \in {"attrs", "seqattrs"} THEN AttrsOf(i) ELSE <<>>
 AllKinds == {"empty", "seq", "choice", "attrs", "seqattrs"}
 \* user = "ref_first": the file starts with a type that REFERS to the global element carrying the root base's name
 \* (so that the element is looked up, ahead of its declaration, before any base is)
-Space == {x \in {[depth |-> d, own |-> o, order |-> ord, loc |-> lc, homonym |-> h, user |-> u] :
+\* rec = "tree": the root base contains a reference to the global element AlphaChild, whose anonymous type EXTENDS the
+\* root base (a child is itself a node); the element is declared last, so with derived_first the root base is first
+\* reached through a forward reference and the recursion passes through a component that is still being converted
+Space == {x \in {[depth |-> d, own |-> o, order |-> ord, loc |-> lc, homonym |-> h, user |-> u, rec |-> r] :
             d \in 1..MaxDepth, o \in [1..4 -> Kinds], ord \in {"base_first", "derived_first"},
-            lc \in {"near", "far"}, h \in {"none", "before", "after"}, u \in {"none", "ref_first"}} :
-            x.user = "ref_first" => (x.homonym # "none" /\ x.own[1] = "seqattrs" /\ x.own[2] \in {"seq", "attrs"})}
+            lc \in {"near", "far"}, h \in {"none", "before", "after"}, u \in {"none", "ref_first"}, r \in {"none", "tree"}} :
+            /\ x.user = "ref_first" => (x.homonym # "none" /\ x.own[1] = "seqattrs" /\ x.own[2] \in {"seq", "attrs"})
+            /\ x.rec = "tree" => (x.loc = "near" /\ x.homonym = "none" /\ x.user = "none" /\ x.own[1] \in {"seq", "seqattrs"})}
 \* only the first depth+1 entries of `own` matter: normalise the rest
 Norm(x) == [x EXCEPT !.own = [i \in 1..4 |-> IF i <= x.depth + 1 THEN x.own[i] ELSE "empty"]]
 Cases == {Norm(x) : x \in Space}
 
 \* level i (1-based index into the tables; level 1 = root base)
+ChildRef == [k |-> "ref", ref |-> [p |-> "t", n |-> "AlphaChild"], min |-> 0, max |-> "unb"]
 TypeItem(x, i) ==
   [k |-> "complex", n |-> TypeName[i],
    base |-> IF i = 1 THEN None ELSE T(IF i = 2 /\ x.loc = "far" THEN "o" ELSE "t", TypeName[i - 1]),
-   content |-> ContentOf(x.own[i], i), attrs |-> AttrOf(x.own[i], i)]
+   content |-> IF i = 1 /\ x.rec = "tree" THEN << SeqP(1, "1", << El(Item[1], B("string"), 1, "1"), ChildRef, El(Count[1], B("int"), 0, "unb") >>) >>
+               ELSE ContentOf(x.own[i], i),
+   attrs |-> AttrOf(x.own[i], i)]
+ChildElem == [k |-> "element", n |-> "AlphaChild",
+              inline |-> [base |-> T("t", "AlphaType"), content |-> << SeqP(1, "1", << El("childPos", B("int"), 1, "1") >>) >>,
+                          attrs |-> << At("childKind", B("string"), "opt") >>]]
 Homonym(x) == [k |-> "element", n |-> "AlphaType", ty |-> T(IF x.loc = "far" THEN "o" ELSE "t", "AlphaType")]
 
 RECURSIVE Up(_, _, _)
@@ -67,8 +77,9 @@ Derived(x) == IF x.order = "base_first" THEN Up(x, 2, x.depth + 1) ELSE Down(x, 
 UserType(x) == [k |-> "complex", n |-> "UserType", base |-> None,
                 content |-> << SeqP(1, "1", << [k |-> "ref", ref |-> [p |-> IF x.loc = "far" THEN "o" ELSE "t", n |-> "AlphaType"], min |-> 1, max |-> "1"] >>) >>,
                 attrs |-> <<>>]
-File1Rest(x) == IF x.loc = "far" THEN Derived(x)
-                ELSE IF x.order = "base_first" THEN RootWithHomonym(x) \o Derived(x) ELSE Derived(x) \o RootWithHomonym(x)
+File1Rest(x) == (IF x.loc = "far" THEN Derived(x)
+                 ELSE IF x.order = "base_first" THEN RootWithHomonym(x) \o Derived(x) ELSE Derived(x) \o RootWithHomonym(x))
+                \o (IF x.rec = "tree" THEN <<ChildElem>> ELSE <<>>)
 File1(x) == [name |-> "f1.xsd", kind |-> "xsd", tns |-> "Unear", xmlns |-> << <<"t", "Unear">>, <<"o", "Ufar">> >>,
              items |-> (IF x.loc = "far" THEN << [k |-> "import", ns |-> "Ufar", loc |-> "f2.xsd"] >> ELSE <<>>)
                        \o (IF x.user = "ref_first" THEN <<UserType(x)>> ELSE <<>>) \o File1Rest(x)]
@@ -100,6 +111,9 @@ Emit == PrintT(<<"CASE", ToJson([prop |-> "C08", drv |-> "gen", start |-> "f1.xs
 
 N(x, p, s) == [xml |-> x, pascal |-> p, snake |-> s]
 Vocab == [names |-> [UserType |-> N("UserType", "UserType", "user_type"),
+                     AlphaChild |-> N("AlphaChild", "AlphaChild", "alpha_child"),
+                     childPos |-> N("childPos", "ChildPos", "child_pos"),
+                     childKind |-> N("childKind", "ChildKind", "child_kind"),
                      alphaItem |-> N("alphaItem", "AlphaItem", "alpha_item"),
                      alphaCount |-> N("alphaCount", "AlphaCount", "alpha_count"),
                      alphaLeft |-> N("alphaLeft", "AlphaLeft", "alpha_left"),
